@@ -138,13 +138,24 @@ Fixpoint ins_z (x : Z) (l : list Z) : list Z :=
   match l with [] => [x] | y :: r => if x <=? y then x :: y :: r else y :: ins_z x r end.
 Definition sort_z (l : list Z) : list Z := fold_right ins_z [] l.
 
-(** heavy nodes (all nodes for coarse graphs) of copy f, by ascending key *)
-Definition copy_nodes (aa : bool) (g : ograph) (f : Z) : list Z :=
-  sort_z (map fst (filter (fun ka => match o_fid (snd ka) with
-                                     | Some f' => (f =? f') && negb (aa && o_is_h (snd ka))
-                                     | None => false end) (fst g))).
-Definition tpl_heavy (aa : bool) (t : template) : list tnode :=
-  filter (fun n => negb (aa && o_is_h (t_attrs n))) (f_nodes t).
+(** the nodes of copy f by ascending key; the TEMPLATE atoms of the copy: all of them for coarse graphs; for
+    all-atom graphs the first |template| of them (canonical numbering: inside a copy the template atoms, explicit
+    hydrogens and single-hydrogen fragments included, come first, then the completing hydrogens) *)
+Definition copy_all (g : ograph) (f : Z) : list Z :=
+  sort_z (map fst (filter (fun ka => match o_fid (snd ka) with Some f' => f =? f' | None => false end) (fst g))).
+Definition copy_nodes (fd : fragdict) (aa : bool) (g : ograph) (f : Z) : list Z :=
+  let ks := copy_all g f in
+  if aa then
+    match ks with
+    | k0 :: _ =>
+        match o_str (S "fragname") (node_attrs_of g k0) with
+        | Some nm => match dict_get fd nm with Some t => firstn (length (f_nodes t)) ks | None => ks end
+        | None => ks
+        end
+    | [] => []
+    end
+  else ks.
+Definition tpl_heavy (aa : bool) (t : template) : list tnode := f_nodes t.
 Fixpoint first_fail (l : list nat) : nat := match l with [] => 0%nat | 0%nat :: r => first_fail r | n :: _ => n end.
 Definition chk (b : bool) (code : nat) : nat := if b then 0%nat else code.
 
@@ -184,7 +195,7 @@ Section C16.
     match o_str (S "fragname") (node_attrs_of g k) with Some nm => dict_get fd nm | None => None end.
   Definition tnode_of (k : Z) : option tnode :=
     match tpl_of k with
-    | Some t => match index_of Z.eqb k (copy_nodes aa g (fid_of g k)) 0 with
+    | Some t => match index_of Z.eqb k (copy_nodes fd aa g (fid_of g k)) 0 with
                 | Some p => nth_error (tpl_heavy aa t) p
                 | None => None end
     | None => None
@@ -198,7 +209,6 @@ Section C16.
   Definition c16_once : bool :=
     forallb (fun ka =>
       let k := fst ka in
-      if aa && o_is_h (snd ka) then true else
       let u := used_descs k in let rm := o_bonding (snd ka) in
       match tnode_of k with
       | Some tn => let tl := bonding_list (t_bonding tn) in
@@ -207,7 +217,7 @@ Section C16.
       end) (fst g).
   (** 5: each copy is the template, through the positional (merge) correspondence *)
   Definition copy_iso (f : Z) : bool :=
-    let ks := copy_nodes aa g f in
+    let ks := copy_nodes fd aa g f in
     match ks with
     | [] => false
     | k0 :: _ =>
@@ -215,8 +225,6 @@ Section C16.
         | None => false
         | Some t =>
             let th := tpl_heavy aa t in
-            if aa && negb (Nat.eqb (length th) (length (f_nodes t))) then true (* explicit H in template: not judged *)
-            else
             let corr := combine (map t_key th) ks in
             Nat.eqb (length th) (length ks) &&
             forallb (fun tk => let '(tn, k) := tk in
@@ -258,20 +266,13 @@ Section C16.
       of a copy are iterated in key order) *)
   Definition c16_copy_order : bool :=
     forallb (fun f =>
-      let ks := sort_z (map fst (filter (fun ka => match o_fid (snd ka) with Some f' => f =? f' | None => false end) (fst g))) in
-      let flags := map (fun k => if o_is_h (node_attrs_of g k) then 1 else 0) ks in
-      let hs := filter (fun k => o_is_h (node_attrs_of g k)) ks in
-      let templ_explicit_h := match ks with
-                              | k0 :: _ => match tpl_of k0 with
-                                           | Some t => negb (Nat.eqb (length (tpl_heavy true t)) (length (f_nodes t)))
-                                           | None => true end
-                              | [] => true end in
-      templ_explicit_h ||
-      (nondecr flags &&
-       nondecr (map (fun h => match nbrs g h with p :: _ => p | [] => -1 end) hs) &&
-       forallb (fun ik => match o_str (S "element") (node_attrs_of g (snd ik)), o_str (S "atomname") (node_attrs_of g (snd ik)) with
-                          | Some e, Some nm => str_eqb nm (e ++ str_of_nat (fst ik))
-                          | _, _ => false end) (combine (seq 0 (length ks)) ks))) fs.
+      let ks := copy_all g f in
+      let added := skipn (length (copy_nodes fd true g f)) ks in
+      forallb (fun k => o_is_h (node_attrs_of g k)) added &&
+      nondecr (map (fun h => match nbrs g h with p :: _ => p | [] => -1 end) added) &&
+      forallb (fun ik => match o_str (S "element") (node_attrs_of g (snd ik)), o_str (S "atomname") (node_attrs_of g (snd ik)) with
+                         | Some e, Some nm => str_eqb nm (e ++ str_of_nat (fst ik))
+                         | _, _ => false end) (combine (seq 0 (length ks)) ks)) fs.
   (** 7: valence completeness (statement of C09) in half-units of bond order *)
   Definition half_order (a : attrs) : option Z :=
     match aget (S "order") a with
@@ -280,12 +281,28 @@ Section C16.
     | None => Some 2
     | _ => None
     end.
+  (** an ADDED hydrogen: a hydrogen that is not one of the template atoms of its copy *)
+  Definition is_added_h (k : Z) : bool :=
+    o_is_h (node_attrs_of g k) && negb (zs_mem k (copy_nodes fd aa g (fid_of g k))).
   Definition c16_valence : bool :=
     forallb (fun ka =>
       let k := fst ka in let a := snd ka in
       if o_is_h a then
-        (* a hydrogen: exactly one neighbour, same membership *)
-        match nbrs g k with [x] => fid_of g x =? fid_of g k | _ => false end
+        (* an added hydrogen, or a template hydrogen without descriptors: exactly one neighbour, same membership.
+           A single-hydrogen fragment with one descriptor of order 1 (an end cap): at most one neighbour.  Any other
+           hydrogen on which the input writes bonding descriptors asks for more than one bond: not judged *)
+        match (if is_added_h k then None else tnode_of k) with
+        | Some tn =>
+            match bonding_list (t_bonding tn) with
+            | [] => match nbrs g k with [x] => fid_of g x =? fid_of g k | _ => false end
+            | [d] => match aget (S "single_h_frag") a, last_char d with
+                     | Some (VBool true), Some c => negb (Ascii.eqb c "1") || Nat.leb (length (nbrs g k)) 1
+                     | _, _ => true
+                     end
+            | _ => true
+            end
+        | None => match nbrs g k with [x] => fid_of g x =? fid_of g k | _ => false end
+        end
       else
         match o_str (S "element") a with
         | None => true
@@ -294,17 +311,19 @@ Section C16.
             match valence_of e q valence_table with
             | None | Some [] => true
             | Some vals =>
+                (* the bonds present when the completion starts: to heavy atoms, to explicit hydrogens, to hydrogen
+                   fragments; the completing hydrogens are the added ones *)
                 let inc := filter (fun ed => let '(u, v, _) := ed in (u =? k) || (v =? k)) (snd g) in
-                let heavy := filter (fun ed => let '(u, v, _) := ed in negb (o_is_h (node_attrs_of g (if u =? k then v else u)))) inc in
-                let nh := Z.of_nat (length inc) - Z.of_nat (length heavy) in
-                let hs := map (fun ed => let '(_, _, at_) := ed in half_order at_) heavy in
+                let pre := filter (fun ed => let '(u, v, _) := ed in negb (is_added_h (if u =? k then v else u))) inc in
+                let nh := Z.of_nat (length inc) - Z.of_nat (length pre) in
+                let hs := map (fun ed => let '(_, _, at_) := ed in half_order at_) pre in
                 if existsb (fun o => match o with None => true | Some _ => false end) hs then true else
                 let hb := fold_left (fun acc o => match o with Some x => acc + x | None => acc end) hs 0 in
                 if Z.odd hb then true else
                 let b := hb / 2 in
                 match filter (fun v => b <=? v) vals with
                 | v :: _ => nh =? v - b
-                | [] => true          (* bonds to heavy atoms exceed every usual valence: not judged *)
+                | [] => true          (* the bonds present exceed every usual valence: not judged *)
                 end
             end
         end) (fst g).
@@ -388,7 +407,7 @@ Section C17.
         end &&
         (* the fragments named are the copies 1.. of the returned molecule, in order *)
         strs_eqb (k_added c)
-                 (flat_map (fun f => match copy_nodes (k_aa c) g f with
+                 (flat_map (fun f => match copy_nodes (k_frags c) (k_aa c) g f with
                                      | k :: _ => match o_str (S "fragname") (node_attrs_of g k) with Some s => [s] | None => [] end
                                      | [] => [] end)
                            (map Z.of_nat (seq 1 (length (k_added c)))))
